@@ -50,6 +50,55 @@ from realcode import Dev, RealSeq, classify, real_name, wire_name
 
 TWO_PI = 2 * math.pi
 
+class Timeout(Exception):
+    """A call into the library did not return (e.g. a replay loop that feeds itself)."""
+
+
+class time_limit:
+    """`with time_limit(5): ...` raises Timeout after 5 s (SIGALRM, main thread only)."""
+
+    def __init__(self, seconds: int):
+        self.seconds = seconds
+
+    def __enter__(self):
+        import signal
+
+        def handler(signum, frame):
+            raise Timeout(f"no return after {self.seconds} s")
+
+        self.old = signal.signal(signal.SIGALRM, handler)
+        signal.alarm(self.seconds)
+
+    def __exit__(self, *a):
+        import signal
+
+        signal.alarm(0)
+        signal.signal(signal.SIGALRM, self.old)
+        return False
+
+
+def forbidden_in_closure(modules: list) -> list:
+    """`common.lean_forbidden_tokens()` restricted to the import closure of `modules`
+    (other contributors' files in progress must not make this check un-runnable)."""
+    import re
+
+    import common
+
+    seen, todo = set(), list(modules)
+    while todo:
+        m = todo.pop()
+        if m in seen:
+            continue
+        f = common.LEAN_DIR / (m.replace(".", "/") + ".lean")
+        if not f.exists():
+            continue
+        seen.add(m)
+        for mm in re.findall(r"^import\s+(\S+)", f.read_text(), re.M):
+            todo.append(mm)
+    files = {m.replace(".", "/") + ".lean" for m in seen}
+    return [h for h in common.lean_forbidden_tokens() if h.split(":")[0] in files]
+
+
 # --------------------------------------------------------------------------------------
 # expressions
 # --------------------------------------------------------------------------------------
@@ -380,6 +429,11 @@ def seq_snapshot(seq: Sequence, ctx: Ctx, qids=None) -> dict:
     r.seq = seq
     # slots may mention qubits outside `qids` (mappable template): index them after the known ones
     allq = list(qids) + [q for q in seq._register.qubit_ids if q not in qids]
+    for sch in seq._schedule.values():       # (ids that should not be there any more show up as extra indices)
+        for sl in sch.slots:
+            for q in sl.targets:
+                if q not in allq:
+                    allq.append(q)
     shim.qids = allq
     snap = r.snapshot()
     shim.qids = list(qids)
@@ -443,7 +497,9 @@ def diff_samples(a, b, tol=1e-9):
                 d = np.abs(x[key] - y[key])
             # relative tolerance for large values (detunings of hundreds of rad/us)
             scale = np.maximum(1.0, np.maximum(np.abs(x[key]), np.abs(y[key])))
-            bad = np.nonzero(~(d <= tol * scale))[0]
+            both_nan = np.isnan(x[key]) & np.isnan(y[key])
+            same_inf = np.isinf(x[key]) & (x[key] == y[key])
+            bad = np.nonzero(~((d <= tol * scale) | both_nan | same_inf))[0]
             if bad.size:
                 i = int(bad[0])
                 return f"samples/{name}/{key}[{i}]: {x[key][i]!r} vs {y[key][i]!r}"
@@ -485,6 +541,8 @@ def diff_tol(a, b, path="", tol=1e-9):
     if a == b:
         return None
     x, y = _num(a), _num(b)
+    if x is not None and y is not None and math.isnan(x) and math.isnan(y):
+        return None
     if x is not None and y is not None and isinstance(a, str) == isinstance(b, str):
         if "/ph" in path or "/tr" in path:
             dlt = abs(x - y) % TWO_PI
@@ -551,6 +609,17 @@ BUILDING = {"declare", "detmap", "target", "add", "adddmm", "addeom", "delay", "
             "eomon", "eommod", "eomoff", "measure", "targeti", "shifti", "slm", "magfield"}
 
 
+def _nonfinite(x) -> bool:
+    """NaN / inf anywhere in an op (accepted by the library, finding of C01/C16; not our subject)."""
+    if isinstance(x, float):
+        return not math.isfinite(x)
+    if isinstance(x, dict):
+        return any(_nonfinite(v) for v in x.values())
+    if isinstance(x, (list, tuple)):
+        return any(_nonfinite(v) for v in x)
+    return False
+
+
 def valid_history(rng: random.Random, spec: dict, nops: int, profile: str = "mix", exact: bool = False,
                   p_invalid: float = 0.04) -> list:
     """A history of successful building calls (drawn by gen.HistoryGen on the real code,
@@ -565,7 +634,7 @@ def valid_history(rng: random.Random, spec: dict, nops: int, profile: str = "mix
         op = g.next_op()
         status, _ = real.apply(op)
         g.feedback(op, status, real)
-        if status == "ok" and op["k"] in BUILDING:
+        if status == "ok" and op["k"] in BUILDING and not _nonfinite(op):
             ops.append(op)
     # failed calls may have left traces (findings F2.x): keep what replays cleanly
     ctx = Ctx(spec)
